@@ -40,6 +40,7 @@ class DefaultFormatter(BaseFormatter):
         "_line_endings",
         "_decimal_places",
         "_comment_template",
+        "_comment_ending",
         "_valid_axes",
     )
 
@@ -172,7 +173,7 @@ class DefaultFormatter(BaseFormatter):
             Formatted comment string
         """
 
-        return self._comment_template.format(text)
+        return self._comment_template.format(self._sanitize_comment(text))
 
     @typechecked
     def command(self,
@@ -236,13 +237,31 @@ class DefaultFormatter(BaseFormatter):
 
         return "".join(buffer[1:])
 
+    def _sanitize_comment(self, text: str) -> str:
+        """Keep free text from escaping the comment it is written in.
+
+        Line breaks would start a new (executable) line and the closing
+        symbols of an enclosed comment style would end the comment early,
+        so both are replaced by spaces.
+        """
+
+        text = " ".join(text.splitlines())
+
+        if self._comment_ending is not None:
+            text = text.replace(self._comment_ending, " ")
+
+        return text
+
     @typechecked
     def _to_comment_template(self, open_symbols: str) -> str:
         """Create a template for G-code comments."""
 
+        self._comment_ending = None
+
         if open_symbols in COMMENT_OPENINGS:
             index = COMMENT_OPENINGS.index(open_symbols)
             end_symbols = COMMENT_ENDINGS[index]
+            self._comment_ending = end_symbols
             return f"{open_symbols} {{}} {end_symbols}"
 
         return f"{open_symbols} {{}}"
